@@ -3,6 +3,7 @@
 #include "Stream/MemoryReader.h"
 #include "Stream/DynamicMemoryWriter.h"
 #include "Stream/FileReader.h"
+#include <memory>
 
 using namespace verif;
 using namespace OP2Utility;
@@ -62,19 +63,33 @@ void map_case(const LMap& m0, Tape& t, Stats& st) {
 	first_diff(w2, w1, "second write vs first write (byte stability)");
 	// edits
 	unsigned ne = unsigned(t.below(31)); uint64_t width = uint64_t(1) << m.lgWidth; unsigned edits = 0;
+	// Copies are independent objects: at every fifth edit the map is copied (copy-assigned, copy-constructed, or copied and the original then
+	// destroyed) and the edits continue on the COPY - first of all at the cell touched last; the originals stay alive and must still hold
+	// what they held when they were copied.
+	std::vector<std::pair<std::unique_ptr<Map>, LMap>> originals; bool justForked = false, haveLast = false; uint64_t lastX = 0, lastY = 0;
 	for (unsigned e = 0; e < ne; ++e) {
 		unsigned op = unsigned(t.below(4));
+		if (e % 5 == 3 && m.tiles.size() <= 70000) {
+			unsigned kind = (e / 5) % 3;
+			auto keep = std::make_unique<Map>(std::move(map));
+			if (kind == 1) { Map b(*keep); map = std::move(b); } else map = *keep;
+			LMap snap = m; snap.trailing.clear();
+			if (kind == 2) keep.reset(); else originals.emplace_back(std::move(keep), snap);
+			justForked = true; st.cls(kind == 0 ? "edit:continue_on_copy_assigned_map" : kind == 1 ? "edit:continue_on_copy_constructed_map" : "edit:continue_on_copy_original_destroyed");
+		}
 		if (e % 7 == 6 && m.versionTag >= 0x1010) { map = read_mem(write_map(map)); m.savedFlag = m.savedFlag != 0; m.trailing.clear(); st.cls("edit:write_read_cycle_between_edits"); }   // edit, write, read, edit ... must equal edit, edit, ...
 		if ((op == 0 || op == 1) && (width < 32 || m.height == 0)) op = 2;
 		switch (op) {
-		case 0: { uint64_t x = t.below(width), y = t.below(m.height); unsigned ct = unsigned(t.below(32)); size_t idx = refmap::tile_index(x, y, m.height);
+		case 0: { uint64_t x = t.below(width), y = t.below(m.height); unsigned ct = unsigned(t.below(32)); if (justForked && haveLast) { x = lastX; y = lastY; ct = (ct & 30) | ((m.tiles[refmap::tile_index(x, y, m.height)] & 1) ^ 1); } lastX = x; lastY = y; haveLast = true; justForked = false; size_t idx = refmap::tile_index(x, y, m.height);
 			map.SetCellType(static_cast<CellType>(ct), x, y); m.tiles[idx] = (m.tiles[idx] & ~31u) | ct; ++edits; st.cls("edit:cell_type"); break; }
-		case 1: { uint64_t x = t.below(width), y = t.below(m.height); bool v = t.flag(); size_t idx = refmap::tile_index(x, y, m.height);
+		case 1: { uint64_t x = t.below(width), y = t.below(m.height); bool v = t.flag(); if (justForked && haveLast) { x = lastX; y = lastY; v = !((m.tiles[refmap::tile_index(x, y, m.height)] >> 28) & 1); } lastX = x; lastY = y; haveLast = true; justForked = false; size_t idx = refmap::tile_index(x, y, m.height);
 			map.SetLavaPossible(v, x, y); m.tiles[idx] = (m.tiles[idx] & ~(1u << 28)) | (uint32_t(v) << 28); ++edits; st.cls("edit:lava_possible"); break; }
 		case 2: { uint32_t tag = t.pick<uint32_t>({0, 1, 0x100F, 0x1010, 0x1011, 0xFFFFFFFF, 0x7FFFFFFF}); if (t.flag()) tag = t.u32(); map.SetVersionTag(tag); m.versionTag = tag; ++edits; st.cls("edit:version_tag"); break; }
 		default: { map.TrimTilesetSources(); std::vector<refmap::Source> keep; for (auto& s : m.sources) if (!(s.numTiles == 0 || s.name.empty())) keep.push_back(s); m.sources = keep; ++edits; st.cls("edit:trim_sources"); break; }
 		}
 	}
+	for (auto& om : originals) { mapgen::compare(*om.first, om.second, "a map that was copied, after edits of its copy (copies must be independent)"); }
+	if (!originals.empty() && originals.back().second.versionTag >= 0x1010) first_diff(write_map(*originals.back().first), refmap::canonical(originals.back().second), "bytes written by a map that was copied, after edits of its copy");
 	if (edits) {
 		LMap me = m; me.trailing.clear();
 		mapgen::compare(map, me, "after edits");
